@@ -295,7 +295,7 @@ func Generate(seed uint64, focus, arm string) *plan.Plan {
 		p.Knobs.PassDoubleRelease = true
 		p.Knobs.Quarantine = 0
 	}
-	if (focus == "C04" || focus == "C13") && p.Family == "router" && r2.p(0.35) {
+	if (focus == "C04" || focus == "C13" || focus == "C07" && arm == "redis") && p.Family == "router" && r2.p(0.35) {
 		// buffers keep their contents when released and are reusable at once (as
 		// shipped): what is sent from a buffer released too early is then another
 		// response's bytes, not a pattern that no client can decode
@@ -410,6 +410,11 @@ func generate(seed uint64, focus, arm string) *plan.Plan {
 		p.Router.Ops, p.Router.Conns = nil, nil
 	}
 	if arm == "redis" {
+		if p.Knobs.YieldDensity == 0 && r.p(0.5) {
+			// (the client library's writer lags behind Do only in runs with
+			// scheduling noise)
+			p.Knobs.YieldDensity = []float64{0.02, 0.1, 0.3}[r.intn(3)]
+		}
 		// second-level cache on the simulated redis server; a small memory
 		// cache in half of the runs so that entries come back through redis
 		rs := &plan.RedisSpec{LatUs: [2]int64{100, int64([]int{600, 5000, 30_000}[r.intn(3)])}}
@@ -424,6 +429,13 @@ func generate(seed uint64, focus, arm string) *plan.Plan {
 		}
 		if r.p(0.2) {
 			rs.FlushUs = []int64{r.i64(2_000_000, max(3_000_000, p.Router.HorizonUs/2))}
+		}
+		if focus == "C08" && r.p(0.2) {
+			// lookups that take seconds: an answer ages while the proxy waits for it
+			rs.SlowGetUs = [2]int64{r.i64(200_000, 1_200_000), r.i64(1_300_000, 3_800_000)}
+			if r.p(0.7) {
+				p.Router.Cache.MemSize = 0
+			}
 		}
 		if focus == "C08" && r.p(0.3) {
 			// a late write: the server stops answering just before three answers
